@@ -6,11 +6,11 @@ let run_fallback (parts : string list) : string =
   let f = fields parts in
   let udp = match fld f "udp" with
     | "plain" | "bigplain" -> Some (false, n_of_int 1) | "tc" | "bigtc" -> Some (true, n_of_int 12) | _ -> None in
-  let tcp = match fld f "tcp" with "reply" -> Some (false, n_of_int 2) | _ -> None in
+  let tcp = match fld f "tcp" with "reply" -> Some (false, n_of_int 2) | "tc" -> Some (true, n_of_int 22) | _ -> None in
   let (r, attempts) = fb_run udp tcp in
   let res = match r with
     | None -> "ERR"
-    | Some (true, _) -> "TRUNCATED"
+    | Some (true, m) -> if int_of_n m = 22 then "TT" else "TRUNCATED"    (* TT: the TCP leg's own (truncated) message, as it is *)
     | Some (false, m) -> (match int_of_n m with 1 -> "U" | 2 -> "T" | _ -> "?") in
   let a = int_of_nat attempts in
   Printf.sprintf "res=%s tcpq=%d udpq=1 sameq=%s" res a (if a > 0 then "1" else "-")
